@@ -189,6 +189,9 @@ theorem Common.mono {a b : VM} {l : List Ev} {I I' : List Nat} {rf rf' : Bool}
     Common a b l I' rf' :=
   ⟨h.log, h.tries, h.iters, h.halted, fun x hx => h.cnt x (fun hh => hx (hI x hh)), fun hr => h.res (hrf hr)⟩
 
+theorem Common.weaken {a b : VM} {l : List Ev} {I : List Nat} {rf : Bool} (h : Common a b l I rf) :
+    Common a b l I false := h.mono (fun _ hx => hx) (fun h => by simp at h)
+
 /-- completion kinds (values of normal/break/continue completions are not observable by the VM in
 function bodies) -/
 inductive K
